@@ -279,7 +279,10 @@ def run(ctx):
                 appends.append(c)
             elif len(a) > 1 and a[1] == "b'/'":
                 slash_blocks.add(c.bb)
-        ew = pred_matcher(r"ends_with$", (r"^(self\.(bytes|uri)|\w+::path(_bytes)?\(self\))$", r"^(b'/'|47)$"))
+        # Rsync URIs always contain "<module>/", so a trailing '/' of the whole URI is a path separator; an Https URI may
+        # be path-less ("https://host", "https://"), there only a trailing '/' of the *path* counts
+        recv = r"^(self\.bytes|\w+::path(_bytes)?\(self\))$" if fn.endswith("Rsync::join") else r"^\w+::path(_bytes)?\(self\)$"
+        ew = pred_matcher(r"ends_with$", (recv, r"^(b'/'|47)$"))
         edges = set()
         for bi, blk in enumerate(b.blocks):
             if blk["term"]["t"] == "switch":
